@@ -132,7 +132,9 @@ pub fn run<S: CtxSpec>(cx: &mut Cx) {
                         (0..4).filter(|j| got.get(*j) != want.get(*j)).map(|j| S::FIELDS[j]).collect();
                     let mut cj = case::<S>(i, &want);
                     cj["fields_wrong"] = json!(bad);
-                    cx.violation("mismatch", s, cj, json!({"sinks_saw": want}), json!({"sinks_saw": got}));
+                    cj["sinks_saw_this_run"] = json!(got);
+                    let agree = crate::routes::agree_list(&want, &got);
+                    cx.violation("mismatch", s, cj, json!({"sinks_saw": want}), json!({"sinks_agree": agree}));
                 }
             }
             cx.states(cnt * 4);
